@@ -15,13 +15,13 @@ AElevate(num) == /\ out.op = "init" /\ c.kind = "poly"
 AReduce == /\ out.op = "init" /\ c.kind = "poly"
            /\ LET Q == Elevate(c.P, 1) IN out' = [op |-> "reduce", Q |-> Q, P |-> Reduce(Q)] /\ UNCHANGED c
 \* rejected inputs: non-Bezier polygon for the stated degree, non-positive count
-AReject(what) == /\ out.op = "init" /\ c.kind = "poly" /\ Len(c.P) >= 3
+AReject(what) == /\ out.op = "init" /\ c.kind = "poly" /\ Len(c.P) >= (IF what \in {"reduce_nonbezier", "elevate_toofew"} THEN 2 ELSE 3)
                  /\ out' = [op |-> "reject", what |-> what] /\ UNCHANGED c
 AElevateCurve(num) == /\ out.op = "init" /\ c.kind = "curve"
                       /\ out' = [op |-> "elevate_curve", num |-> num, sh |-> ElevateCurve(c.sh, num)] /\ UNCHANGED c
 Next == \/ \E num \in 1..MaxNum : AElevate(num)
         \/ AReduce
-        \/ \E w \in {"elevate_nonbezier", "elevate_num0", "elevate_negative", "reduce_nonbezier", "reduce_degree1"} : AReject(w)
+        \/ \E w \in {"elevate_nonbezier", "elevate_toofew", "elevate_num0", "elevate_negative", "reduce_nonbezier", "reduce_toomany", "reduce_degree1"} : AReject(w)
         \/ \E num \in 1..2 : AElevateCurve(num)
 Spec == Init /\ [][Next]_vars
 
